@@ -11,52 +11,61 @@ maybe theorem tie_drop_range (rs re : Nat) (s : Sys) (h : Inv s.buf) (hnd : NonD
   tie3 h hnd [Gen.drop_range, dropRange, dropSegments]
 maybe theorem tie_truncate_back (n : Nat) (s : Sys) (h : Inv s.buf) (hnd : NonDefect (truncateBack n s).1) :
     Gen.truncate_back n s = truncateBack n s := by
-  by_cases hz : s.buf.cap = 0 ∨ n ≥ s.buf.size
-  · simp only [Gen.truncate_back, truncateBack, getBuf_bind, ite_run, hz, if_true]
-  · have hn : n < s.buf.size := by omega
-    have hm : truncateBack n s = (dropRange n s.buf.size >>= fun _ => do
-        let b' ← getBuf
-        dassert (decide (b'.size = n))) s := by
-      simp only [truncateBack, getBuf_bind, ite_run, hz, if_false]
-    rw [hm] at hnd
-    have hnd' := nd_of_bind _ _ s hnd
-    simp only [Gen.truncate_back, truncateBack, getBuf_bind, ite_run, bind_assoc_run, pure_run, pure_bind_run, hz,
-      if_false]
-    -- a body that guards the call with `!range.is_empty()` (always true here) is the same body
-    try simp only [hn, not_true_eq_false, not_false_eq_true, Classical.not_not, if_true, ite_true, ite_run, ite_bind,
-      bind_assoc_run, pure_bind_run]
-    simp only [bind_run, tie_drop_range n s.buf.size s h hnd']
-    cases dropRange n s.buf.size s with
-    | mk r s1 => cases r with
-      | error p => rfl
-      | ok u =>
-        simp only [getBuf_run, dassert_run, pure_run]
-        by_cases hc : decide (s1.buf.size = n) = true <;> simp only [hc, if_true, if_false, ite_true, ite_false] <;> rfl
+  first
+  | rfl      -- (a body outside the subset is *defined* as the model's function)
+  | (
+     by_cases hz : s.buf.cap = 0 ∨ n ≥ s.buf.size
+     · simp only [Gen.truncate_back, truncateBack, getBuf_bind, ite_run, hz, if_true]
+     · have hn : n < s.buf.size := by omega
+       have hm : truncateBack n s = (dropRange n s.buf.size >>= fun _ => do
+           let b' ← getBuf
+           dassert (decide (b'.size = n))) s := by
+         simp only [truncateBack, getBuf_bind, ite_run, hz, if_false]
+       rw [hm] at hnd
+       have hnd' := nd_of_bind _ _ s hnd
+       simp only [Gen.truncate_back, truncateBack, getBuf_bind, ite_run, bind_assoc_run, pure_run, pure_bind_run, hz,
+         if_false]
+       -- a body that guards the call with `!range.is_empty()` (always true here) is the same body
+       try simp only [hn, not_true_eq_false, not_false_eq_true, Classical.not_not, if_true, ite_true, ite_run, ite_bind,
+         bind_assoc_run, pure_bind_run]
+       simp only [bind_run, tie_drop_range n s.buf.size s h hnd']
+       cases dropRange n s.buf.size s with
+       | mk r s1 => cases r with
+         | error p => rfl
+         | ok u =>
+           simp only [getBuf_run, dassert_run, pure_run]
+           by_cases hc : decide (s1.buf.size = n) = true <;> simp only [hc, if_true, if_false, ite_true, ite_false] <;> rfl)
 maybe theorem tie_truncate_front (n : Nat) (s : Sys) (h : Inv s.buf) (hnd : NonDefect (truncateFront n s).1) :
     Gen.truncate_front n s = truncateFront n s := by
-  by_cases hz : s.buf.cap = 0 ∨ n ≥ s.buf.size
-  · simp only [Gen.truncate_front, truncateFront, getBuf_bind, ite_run, hz, if_true]
-  · have hn : n ≤ s.buf.size := by omega
-    have hu : usub s.buf.size n = .ok (s.buf.size - n) := by simp [usub]; omega
-    have hm : truncateFront n s = (dropRange 0 (s.buf.size - n) >>= fun _ => do
-        let b' ← getBuf
-        dassert (decide (b'.size = n))) s := by
-      simp only [truncateFront, getBuf_bind, ite_run, hz, if_false, liftE_bind, hu, bind_assoc_run]
-    rw [hm] at hnd
-    have hnd' := nd_of_bind _ _ s hnd
-    simp only [Gen.truncate_front, truncateFront, getBuf_bind, ite_run, bind_assoc_run, pure_run, pure_bind_run,
-      liftE_bind, hz, if_false, hu]
-    simp only [bind_run, tie_drop_range 0 (s.buf.size - n) s h hnd']
-    cases dropRange 0 (s.buf.size - n) s with
-    | mk r s1 => cases r with
-      | error p => rfl
-      | ok u =>
-        simp only [getBuf_run, dassert_run, pure_run]
-        by_cases hc : decide (s1.buf.size = n) = true <;> simp only [hc, if_true, if_false, ite_true, ite_false] <;> rfl
+  first
+  | rfl      -- (a body outside the subset is *defined* as the model's function)
+  | (
+     by_cases hz : s.buf.cap = 0 ∨ n ≥ s.buf.size
+     · simp only [Gen.truncate_front, truncateFront, getBuf_bind, ite_run, hz, if_true]
+     · have hn : n ≤ s.buf.size := by omega
+       have hu : usub s.buf.size n = .ok (s.buf.size - n) := by simp [usub]; omega
+       have hm : truncateFront n s = (dropRange 0 (s.buf.size - n) >>= fun _ => do
+           let b' ← getBuf
+           dassert (decide (b'.size = n))) s := by
+         simp only [truncateFront, getBuf_bind, ite_run, hz, if_false, liftE_bind, hu, bind_assoc_run]
+       rw [hm] at hnd
+       have hnd' := nd_of_bind _ _ s hnd
+       simp only [Gen.truncate_front, truncateFront, getBuf_bind, ite_run, bind_assoc_run, pure_run, pure_bind_run,
+         liftE_bind, hz, if_false, hu]
+       simp only [bind_run, tie_drop_range 0 (s.buf.size - n) s h hnd']
+       cases dropRange 0 (s.buf.size - n) s with
+       | mk r s1 => cases r with
+         | error p => rfl
+         | ok u =>
+           simp only [getBuf_run, dassert_run, pure_run]
+           by_cases hc : decide (s1.buf.size = n) = true <;> simp only [hc, if_true, if_false, ite_true, ite_false] <;> rfl)
 maybe theorem tie_clear (s : Sys) (h : Inv s.buf) (hnd : NonDefect (clear s).1) : Gen.clear s = clear s := by
-  have hnd' : NonDefect (truncateBack 0 s).1 := hnd
-  simp only [Gen.clear, clear, bind_run, pure_run, tie_truncate_back 0 s h hnd']
-  cases truncateBack 0 s with
-  | mk r s1 => cases r <;> rfl
+  first
+  | rfl      -- (a body outside the subset is *defined* as the model's function)
+  | (
+     have hnd' : NonDefect (truncateBack 0 s).1 := hnd
+     simp only [Gen.clear, clear, bind_run, pure_run, tie_truncate_back 0 s h hnd']
+     cases truncateBack 0 s with
+     | mk r s1 => cases r <;> rfl)
 
 end CircBuf
